@@ -718,8 +718,10 @@ pub fn exec_u(w: &mut World, op: &Op, rest: &str, env: &mut Env) {
             env.emit_u64("eq", (v == &w.u[b]) as u64);
             env.emit_u64("lownz", v.as_ibig().bit_len().min(1) as u64);
             let f = v.to_f64();
+            env.emit_u64("v64", matches!(f, dashu_base::Approximation::Exact(_)) as u64);
             env.emit_f64("f64", f.value());
             let f = v.to_f32();
+            env.emit_u64("v32", matches!(f, dashu_base::Approximation::Exact(_)) as u64);
             env.emit_f32("f32", f.value());
             env.emit_u64("u64", u64::try_from(v).unwrap_or(u64::MAX));
             env.emit_u64("u8ok", u8::try_from(v).is_ok() as u64);
@@ -1258,8 +1260,10 @@ pub fn exec_i(w: &mut World, op: &Op, rest: &str, env: &mut Env) {
             env.emit_u64("pos", v.is_positive() as u64);
             env.emit_u64("neg", v.is_negative() as u64);
             let f = v.to_f64();
+            env.emit_u64("v64", matches!(f, dashu_base::Approximation::Exact(_)) as u64);
             env.emit_f64("f64", f.value());
             let f = v.to_f32();
+            env.emit_u64("v32", matches!(f, dashu_base::Approximation::Exact(_)) as u64);
             env.emit_f32("f32", f.value());
             env.emit_i64("i64", i64::try_from(v).unwrap_or(i64::MIN));
             env.emit_u64("u8ok", u8::try_from(v).is_ok() as u64);
